@@ -15,6 +15,11 @@ OBLIGATIONS = [
     "NanoVerif.C01.paintedLayers_eq_spec",
     "NanoVerif.C01.run_node",
     "NanoVerif.C01.run_list",
+    "NanoVerif.C01.svgLinear_param",
+    "NanoVerif.C01.linear_gradient_preserved",
+    "NanoVerif.C01.gradient_transform_order",
+    "NanoVerif.C01.bbox_units",
+    "NanoVerif.C01.radial_gradient_preserved",
     "NanoVerif.C16.linParam_affine",
     "NanoVerif.C16.radial_similarity",
     "NanoVerif.C16.transformed_denotes",
@@ -274,6 +279,81 @@ def check_font_renders(ctx, res, case, out, site="colr1-render", npts=9):
     return n_cmp
 
 
+def suite_gradient_parse_model(ctx, res, n):
+    """Tie for Model/GradientParse.lean (`getGradientTransform`, `parseLinear`; theorems linear_gradient_preserved, gradient_transform_order): the real
+    color_glyph._get_gradient_transform and _parse_linear_gradient on generated <linearGradient> elements — bounding-box / user-space units (attribute
+    written or left out), with and without gradientTransform, non-square viewBoxes, user transforms."""
+    from fractions import Fraction as F
+    from lxml import etree
+    from nanoemoji import color_glyph, config as nconfig
+    from nanoemoji.paint import PaintLinearGradient
+    from picosvg.geometric_types import Rect
+    from picosvg.svg_transform import Affine2D
+    from harness.common import fr
+
+    rng = ctx.rng
+    ops, reals, metas = [], [], []
+    dy = lambda lo, hi, den=4: F(rng.randint(lo * den, hi * den), den)   # dyadic: exact in floats
+    for _ in range(n):
+        vb = (dy(-16, 16), dy(-16, 16), rng.choice([F(24), F(100), F(128), F(64)]), rng.choice([F(24), F(100), F(128), F(32)]))
+        asc, desc, width = rng.choice([(950, -250, 1275), (800, -200, 1000), (1024, 0, 0), (880, -120, 600)])
+        user = rng.choice([(1, 0, 0, 1, 0, 0), (1, 0, 0, 1, 30, -20), (F(3, 4), 0, 0, F(3, 4), 0, 0), (0, 1, -1, 0, 100, 0), (1, 0, F(1, 4), 1, 0, 0)])
+        units = rng.choice(["bbox", "bbox-default", "user"])
+        bbox = (dy(0, 60), dy(0, 60), dy(4, 60), dy(4, 60))
+        gt = rng.choice([None, None, (0, 1, -1, 0, 1, 0), (F(1, 2), 0, 0, 2, 0, 0), (1, F(1, 4), 0, 1, F(1, 8), 0), (-1, 0, 0, 1, 1, 0)])
+        if units == "user":
+            p0, p1 = (dy(0, 100), dy(0, 100)), (dy(0, 100), dy(0, 100))
+        else:
+            p0, p1 = (rng.choice([F(0), F(1, 4)]), rng.choice([F(0), F(1, 2)])), (rng.choice([F(1), F(3, 4)]), rng.choice([F(0), F(1), F(1, 2)]))
+        if p0 == p1:
+            continue
+        attrs = {"id": "g", "x1": str(float(p0[0])), "y1": str(float(p0[1])), "x2": str(float(p1[0])), "y2": str(float(p1[1]))}
+        if units == "bbox":
+            attrs["gradientUnits"] = "objectBoundingBox"
+        elif units == "user":
+            attrs["gradientUnits"] = "userSpaceOnUse"
+        if gt is not None:
+            attrs["gradientTransform"] = "matrix(" + " ".join(str(float(v)) for v in gt) + ")"
+        el = etree.Element("{http://www.w3.org/2000/svg}linearGradient", attrs)
+        for off, col in ((0, "#ff0000"), (1, "#0000ff")):
+            etree.SubElement(el, "{http://www.w3.org/2000/svg}stop", {"offset": str(off), "stop-color": col})
+        cfg = nconfig.FontConfig(ascender=asc, descender=desc, width=width, transform=Affine2D(*[float(v) for v in user]),
+                                 masters=(nconfig.MasterConfig("Regular", "Regular", "x.ufo", (), ()),))
+        rvb, rbb = Rect(*[float(v) for v in vb]), Rect(*[float(v) for v in bbox])
+        glyph_width = max(width, round((asc - desc) * float(vb[2]) / float(vb[3])))
+        try:
+            t = color_glyph._get_gradient_transform(cfg, el, rbb, rvb, glyph_width)
+            p = color_glyph._parse_linear_gradient(cfg, el, rbb, rvb, glyph_width)
+            if isinstance(p, PaintLinearGradient):
+                real = {"t": [float(v) for v in t], "g": [float(v) for v in (*p.p0, *p.p1, *p.p2)]}
+            else:
+                real = {"other": type(p).__name__}
+        except OverflowError:
+            real = {"overflow": True}
+        except Exception as e:  # noqa
+            real = {"exc": type(e).__name__ + ":" + str(e)[:100]}
+        ops.append({"op": "parse-linear", "vb": [fr(v) for v in vb], "asc": str(asc), "desc": str(desc), "width": str(glyph_width), "user": [fr(F(v)) for v in user],
+                    "bbox": None if units == "user" else [fr(v) for v in bbox], "gt": None if gt is None else [fr(F(v)) for v in gt],
+                    "p0": [fr(v) for v in p0], "p1": [fr(v) for v in p1]})
+        reals.append(real)
+        metas.append({"units": units, "gt": gt is not None, "attrs": dict(attrs), "bbox": [str(v) for v in bbox], "vb": [str(v) for v in vb]})
+    for meta, real, m in zip(metas, reals, ctx.driver.run(ops)):
+        res.count(key=("parse-linear", stable_hash(meta)), nontrivial=meta["gt"] or meta["units"] != "user")
+        res.stat("parse-linear:" + meta["units"] + (":gt" if meta["gt"] else ""))
+        if "overflow" in real:
+            continue
+        if "t" not in real or "t" not in m:
+            res.add_tie_break("_get_gradient_transform / _parse_linear_gradient vs Model GradientParse", meta, m, real)
+            continue
+        mt = [float(F(v)) for v in m["t"]]
+        mg = [float(F(v)) for v in m["g"]]
+        tol = lambda a, b: abs(a - b) <= 1e-7 * max(1.0, abs(b))
+        if not all(tol(a, b) for a, b in zip(real["t"], mt)):
+            res.add_tie_break("_get_gradient_transform vs Model getGradientTransform (order of gradientTransform / bounding box / placement)", meta, mt, real["t"])
+        elif not all(tol(a, b) for a, b in zip(real["g"], mg)):
+            res.add_tie_break("_parse_linear_gradient vs Model parseLinear (p0, p1, p2 after mapping)", meta, mg, real["g"])
+
+
 def suite_fonts(ctx, res, n, formats=COLR1_FORMATS, n_tiny=0):
     cases = list(fontgen.gen_cases(ctx.rng, n, formats=formats))
     # tiny copy of a large donor under a far radial gradient: the OverflowError fallback of the reuse branch
@@ -308,6 +388,7 @@ def run(ctx, res):
                 "distinct = distinct case; non-trivial = >= 2 shapes")
     suite_placement(ctx, res, ctx.budget(1500, 20000))
     suite_painted_layers(ctx, res, ctx.budget(400, 6000))
+    suite_gradient_parse_model(ctx, res, ctx.budget(300, 5000))
     # claim split (f): every affine the pipeline encodes goes through paint.transformed; a wrong encoding displaces a layer
     from harness.props import C16
     C16.suite_transformed(ctx, res, ctx.budget(2500, 30000))
@@ -322,6 +403,7 @@ def run(ctx, res):
 
 def search(ctx, res, broken):
     suite_placement(ctx, res, 20000)
+    suite_gradient_parse_model(ctx, res, 3000)
     suite_fonts(ctx, res, 150, n_tiny=60)
 
 
